@@ -3,15 +3,16 @@ package authn
 // C36: RPC access control. The real Authenticate / tokenAuthn /
 // cachedTokenAuthnCheck / localhostAuthn and the real CredentialStore.Check
 // and Delete run over a map-backed dbm.DB; the oracle is the set of issued
-// (id, secret) pairs with their deletion ages kept by the harness.
+// (id, secret) pairs, their liveness, and the instants at which the store was
+// really consulted successfully (observed as reads of the mock DB).
 
 //verif:property C36
-//verif:bound token history (VerifC36Token): one issued token (thorough: optionally a second one) with id and secret of 1..2 characters each; a warming request with user and password of 0..2 (thorough 0..3) characters each (one obligation per length combination) and a final request with or without credentials, user and password of 0..2 (thorough 0..3) characters each; between them: time passes, then optionally token 0 is deleted, or deleted and re-issued under the same id with another secret, then time passes again (whole seconds, any value below 2^31 each)
+//verif:bound token history (VerifC36Token): one issued token (thorough: optionally a second one) with id and secret of 1..2 characters each; history = warming request (user/password lengths fixed per obligation: quick 10 combinations of 0..2, thorough all 36), time d1, optionally token 0 deleted or deleted and re-issued under the same id with another secret, time d2, an intermediate request with the warming credentials, time d3, optionally token 0 deleted, time d4, final request with or without credentials, user and password of 0..2 (thorough also 0..3 for the four matching-length combinations) characters each; d1..d4 whole seconds, any value 0..65535 each; all requests from a non-loopback address
 //verif:bound request classes (VerifC36Paths): every URL path of exactly n bytes for n = 0..21 (quick) / 0..26 (thorough), five remote addresses (IPv4 loopback, IPv6 loopback, private IPv4, empty, no port), with or without Basic credentials of 1 character each against one issued token
 //verif:assume characters of ids, secrets, users and passwords are lower-case letters or digits (Create enforces [\w-]+ for ids and produces hex secrets; no ':' so that the Basic-auth split is unambiguous)
 //verif:assume authentication is enabled (disable=false) and loopbackOn has its compiled-in value true
 //verif:assume the paths /dashboard, /dashboard/..., /equity, /equity/... serve static assets and are exempt from authentication by design (comment in Authenticate); the check asserts that nothing else is exempt
-//verif:assume clock: for the solver time.Now is a harness clock (whole seconds) that verifC36Pass advances; in the native replay time.Now is the real clock and verifC36Pass instead moves the lastLookup of every cache entry into the past by the same amount (equivalent for a cache that only compares now with lastLookup+5min); a total age of exactly 300 s (the boundary instant of the cache window) is excluded because the real clock advances between two reads
+//verif:assume clock: for the solver time.Now is a harness clock (whole seconds) that verifC36Pass advances; in the native replay time.Now is the real clock and verifC36Pass instead moves the lastLookup of every cache entry into the past by the same amount (equivalent for a cache that only compares now with lastLookup+5min); a request exactly 300 s after an earlier request (the boundary instant of a cache entry written then) is excluded because the real clock advances between two reads
 //verif:assume encoding/json.Unmarshal of a stored token record returns the Token that was marshalled into it (solver: record looked up by buffer identity; native replay: the real JSON decoder on the real record)
 //verif:assume Request.SetBasicAuth / BasicAuth round-trip user and password (solver: kept in a harness variable; native replay: the real header encoder and parser); context.WithValue is cut for the solver
 //verif:outside HTTP header and base64 parsing, IP address text parsing (net.ParseIP is replaced for the solver by a table of the three host strings used and IP.IsLoopback by a copy that does not read the package variable net.IPv6loopback; SplitHostPort is the real code), CredentialStore.Create (crypto/rand, regexp, JSON encoding), LevelDB, concurrent requests (tokenMu)
@@ -23,9 +24,9 @@ package authn
 //verif:override context.WithValue -> verifC36WithValue
 //verif:override net.ParseIP -> verifC36ParseIP
 //verif:override (net.IP).IsLoopback -> verifC36IsLoopback
-//verif:obligation fn=VerifC36Token args=1,1,1,1,2,0;2,1,2,1,2,0;1,2,1,2,2,0;1,1,0,2,2,0 secs=900 validate=12
-//verif:obligation fn=VerifC36Token args=1,1,0,0,2,0;1,1,0,1,2,0;1,1,1,0,2,0;1,1,1,2,2,0;1,1,2,0,2,0;1,1,2,1,2,0;1,1,2,2,2,0;1,2,0,0,2,0;1,2,0,1,2,0;1,2,0,2,2,0;1,2,1,0,2,0;1,2,1,1,2,0;1,2,2,0,2,0;1,2,2,1,2,0;1,2,2,2,2,0;2,1,0,0,2,0;2,1,0,1,2,0;2,1,0,2,2,0;2,1,1,0,2,0;2,1,1,1,2,0;2,1,1,2,2,0;2,1,2,0,2,0;2,1,2,2,2,0;2,2,0,0,2,0;2,2,0,1,2,0;2,2,0,2,2,0;2,2,1,0,2,0;2,2,1,1,2,0;2,2,1,2,2,0;2,2,2,0,2,0;2,2,2,1,2,0;2,2,2,2,2,0 secs=900
-//verif:obligation fn=VerifC36Token args=1,1,0,0,3,1;1,1,0,1,3,1;1,1,0,2,3,1;1,1,0,3,3,1;1,1,1,0,3,1;1,1,1,1,3,1;1,1,1,2,3,1;1,1,1,3,3,1;1,1,2,0,3,1;1,1,2,1,3,1;1,1,2,2,3,1;1,1,2,3,3,1;1,1,3,0,3,1;1,1,3,1,3,1;1,1,3,2,3,1;1,1,3,3,3,1;1,2,0,0,3,1;1,2,0,1,3,1;1,2,0,2,3,1;1,2,0,3,3,1;1,2,1,0,3,1;1,2,1,1,3,1;1,2,1,2,3,1;1,2,1,3,3,1;1,2,2,0,3,1;1,2,2,1,3,1;1,2,2,2,3,1;1,2,2,3,3,1;1,2,3,0,3,1;1,2,3,1,3,1;1,2,3,2,3,1;1,2,3,3,3,1;2,1,0,0,3,1;2,1,0,1,3,1;2,1,0,2,3,1;2,1,0,3,3,1;2,1,1,0,3,1;2,1,1,1,3,1;2,1,1,2,3,1;2,1,1,3,3,1;2,1,2,0,3,1;2,1,2,1,3,1;2,1,2,2,3,1;2,1,2,3,3,1;2,1,3,0,3,1;2,1,3,1,3,1;2,1,3,2,3,1;2,1,3,3,3,1;2,2,0,0,3,1;2,2,0,1,3,1;2,2,0,2,3,1;2,2,0,3,3,1;2,2,1,0,3,1;2,2,1,1,3,1;2,2,1,2,3,1;2,2,1,3,3,1;2,2,2,0,3,1;2,2,2,1,3,1;2,2,2,2,3,1;2,2,2,3,3,1;2,2,3,0,3,1;2,2,3,1,3,1;2,2,3,2,3,1;2,2,3,3,3,1 tier=thorough secs=3000
+//verif:obligation fn=VerifC36Token args=1,1,1,1,2,0;2,1,2,1,2,0;1,2,1,2,2,0;2,2,2,2,2,0 secs=3000 validate=12 timeout=120000
+//verif:obligation fn=VerifC36Token args=1,1,0,1,2,0;1,1,1,0,2,0;1,1,2,0,2,0;1,2,2,1,2,0;2,1,1,2,2,0;1,1,0,0,2,0 secs=3000 timeout=120000
+//verif:obligation fn=VerifC36Token args=1,1,0,2,2,0;1,1,1,2,2,0;1,1,2,1,2,0;1,1,2,2,2,0;1,2,0,0,2,0;1,2,0,1,2,0;1,2,0,2,2,0;1,2,1,0,2,0;1,2,1,1,2,0;1,2,2,0,2,0;1,2,2,2,2,0;2,1,0,0,2,0;2,1,0,1,2,0;2,1,0,2,2,0;2,1,1,0,2,0;2,1,1,1,2,0;2,1,2,0,2,0;2,1,2,2,2,0;2,2,0,0,2,0;2,2,0,1,2,0;2,2,0,2,2,0;2,2,1,0,2,0;2,2,1,1,2,0;2,2,1,2,2,0;2,2,2,0,2,0;2,2,2,1,2,0;1,1,1,1,3,1;1,2,1,2,3,1;2,1,2,1,3,1;2,2,2,2,3,1 tier=thorough secs=3000 paths=4000000 timeout=120000
 //verif:obligation fn=VerifC36Paths args=0;1;2;3;4;5;6;7;8;9;10;11;12;13;14;15;16;17;18;19;20;21 validate=10
 //verif:obligation fn=VerifC36Paths args=22;23;24;25;26 tier=thorough
 
@@ -44,10 +45,11 @@ import (
 // environment
 
 type verifC36DB struct {
-	m map[string][]byte
+	m    map[string][]byte
+	gets int // number of reads: how often the credential store was really consulted
 }
 
-func (d *verifC36DB) Get(k []byte) []byte         { return d.m[string(k)] }
+func (d *verifC36DB) Get(k []byte) []byte         { d.gets++; return d.m[string(k)] }
 func (d *verifC36DB) Set(k []byte, v []byte)      { d.m[string(k)] = v }
 func (d *verifC36DB) SetSync(k []byte, v []byte)  { d.m[string(k)] = v }
 func (d *verifC36DB) Delete(k []byte)             { delete(d.m, string(k)) }
@@ -177,97 +179,163 @@ func verifC36Pass(a *API, d int64) {
 type verifC36Token struct {
 	id, secret string
 	live       bool
-	deadFor    int64 // seconds since deletion (when !live)
+}
+
+// verifC36Checked: at harness time `at` the credential store was really
+// consulted (DB read observed) for (user, pw) and that pair was live.
+type verifC36Checked struct {
+	user, pw string
+	at       int64
+}
+
+type verifC36Hist struct {
+	api     *API
+	db      *verifC36DB
+	toks    []*verifC36Token
+	now     int64 // seconds since the start of the history
+	checked []verifC36Checked
+	reqAt   []int64 // instants of the requests so far
+}
+
+func (h *verifC36Hist) pairLive(u, p string) bool {
+	for _, t := range h.toks {
+		if t.live && u == t.id && p == t.secret {
+			return true
+		}
+	}
+	return false
+}
+
+// withinWindow: the pair passed a real store check less than 300 s ago.
+func (h *verifC36Hist) withinWindow(u, p string) bool {
+	for _, c := range h.checked {
+		if c.user == u && c.pw == p && h.now-c.at < 300 {
+			return true
+		}
+	}
+	return false
+}
+
+// notAtBoundary excludes a request exactly 300 s after any earlier request
+// (the only instants at which a cache entry can have been written): there the
+// real clock, which advances between two reads, decides differently.
+func (h *verifC36Hist) notAtBoundary() {
+	for _, t := range h.reqAt {
+		verifAssume(h.now-t != 300)
+	}
+	h.reqAt = append(h.reqAt, h.now)
+}
+
+func (h *verifC36Hist) pass(name string) {
+	d := int64(verifU16(name)) // 0..65535 s: narrow variables keep the window arithmetic easy for the solver
+	verifC36Pass(h.api, d)
+	h.now += d
+}
+
+// request sends a non-loopback request and records whether the store was
+// consulted successfully.
+func (h *verifC36Hist) request(c verifC36Cred) bool {
+	h.notAtBoundary()
+	before := h.db.gets
+	_, err := h.api.Authenticate(verifC36Request("/create-account", "192.168.1.20:52011", c))
+	if c.ok && h.db.gets > before && h.pairLive(c.user, c.pw) {
+		h.checked = append(h.checked, verifC36Checked{c.user, c.pw, h.now})
+	}
+	return err == nil
 }
 
 // ---------------------------------------------------------------------------
-// token / cache histories
+// token / cache histories:
+//   warm request, time, [delete | delete+re-issue], time, intermediate request
+//   with the warm credentials, time, [delete], time, final request
 
 func VerifC36Token(idLen int, secLen int, u1Len int, p1Len int, maxReq int, second int) {
 	verifC36Records = nil
 	verifC36Clock = 0
 	db := &verifC36DB{m: map[string][]byte{}}
 	store := accesstoken.NewStore(db)
-	api := NewAPI(store, false)
+	h := &verifC36Hist{api: NewAPI(store, false), db: db}
 
-	toks := []*verifC36Token{
+	h.toks = []*verifC36Token{
 		{id: verifC36Str("id0", idLen), secret: verifC36Str("secret0", secLen), live: true},
 	}
 	if second != 0 && verifBool("second.token") {
 		t1 := &verifC36Token{id: verifC36Str("id1", 1), secret: verifC36Str("secret1", 1), live: true}
-		verifAssume(t1.id != toks[0].id)
-		toks = append(toks, t1)
+		verifAssume(t1.id != h.toks[0].id)
+		h.toks = append(h.toks, t1)
 	}
-	for _, t := range toks {
+	for _, t := range h.toks {
 		verifC36Issue(db, t.id, t.secret)
 	}
 
 	// warming request: arbitrary credentials
 	u1 := verifC36Str("user1", u1Len)
 	p1 := verifC36Str("pw1", p1Len)
-	_, err1 := api.Authenticate(verifC36Request("/create-account", "192.168.1.20:52011", verifC36Cred{u1, p1, true}))
-	verifObserveBool("first.admitted", err1 == nil)
-	warmPair := false
-	for _, t := range toks {
-		if u1 == t.id && p1 == t.secret {
-			warmPair = true
-		}
-	}
-	// region of KF-C36-CACHEKEY: the cache holds a key that is also the
-	// concatenation of a different (user, password) split
-	verifAssert(err1 != nil || warmPair, "admitted-only-with-issued-pair")
-	if err1 == nil {
+	warm := verifC36Cred{u1, p1, true}
+	ok1 := h.request(warm)
+	verifObserveBool("first.admitted", ok1)
+	verifAssert(!ok1 || h.pairLive(u1, p1), "admitted-only-with-issued-pair")
+	if ok1 {
 		verifReach("VerifC36Token:warm-admitted")
 	}
 
-	// events
-	a1 := verifI64("age1")
-	a2 := verifI64("age2")
-	verifAssume(a1 >= 0 && a1 < 1<<31 && a2 >= 0 && a2 < 1<<31 && a1+a2 != 300)
-	verifC36Pass(api, a1)
+	h.pass("age1")
 	switch verifChoice("event", 3) {
 	case 1:
-		store.Delete(toks[0].id)
-		toks[0].live = false
+		store.Delete(h.toks[0].id)
+		h.toks[0].live = false
 	case 2:
-		store.Delete(toks[0].id)
-		toks[0].live = false
-		nt := &verifC36Token{id: toks[0].id, secret: verifC36Str("secret0b", secLen), live: true}
-		verifAssume(nt.secret != toks[0].secret)
+		store.Delete(h.toks[0].id)
+		h.toks[0].live = false
+		nt := &verifC36Token{id: h.toks[0].id, secret: verifC36Str("secret0b", secLen), live: true}
+		verifAssume(nt.secret != h.toks[0].secret)
 		verifC36Issue(db, nt.id, nt.secret)
-		toks = append(toks, nt)
+		h.toks = append(h.toks, nt)
 	}
-	verifC36Pass(api, a2)
-	toks[0].deadFor = a2
+	h.pass("age2")
+
+	// intermediate request with the warm credentials: a cache hit must not
+	// extend the window, which counts from the last successful store check
+	okM := h.request(warm)
+	verifObserveBool("mid.admitted", okM)
+	liveM := h.pairLive(u1, p1)
+	verifAssert(!okM || liveM || h.withinWindow(u1, p1), "intermediate-admitted-only-live-or-within-window")
+	if okM && !liveM {
+		verifReach("VerifC36Token:intermediate-admitted-from-cache-after-delete")
+	}
+
+	h.pass("age3")
+	if verifBool("late.delete") && h.toks[0].live {
+		store.Delete(h.toks[0].id)
+		h.toks[0].live = false
+	}
+	h.pass("age4")
 
 	// final request
 	hasAuth := verifBool("final.hasauth")
 	u2 := verifC36Str("user2", verifChoice("user2.len", maxReq+1))
 	p2 := verifC36Str("pw2", verifChoice("pw2.len", maxReq+1))
-	_, err2 := api.Authenticate(verifC36Request("/create-account", "192.168.1.20:52011", verifC36Cred{u2, p2, hasAuth}))
-	verifObserveBool("final.admitted", err2 == nil)
+	ok2 := h.request(verifC36Cred{u2, p2, hasAuth})
+	verifObserveBool("final.admitted", ok2)
 
-	entitled := false
-	ambiguous := false
-	for _, t := range toks {
-		if hasAuth && u2 == t.id && p2 == t.secret && (t.live || t.deadFor < 300) {
-			entitled = true
-		}
-	}
-	if hasAuth && err1 == nil && u1+p1 == u2+p2 && u1 != u2 {
-		ambiguous = true
-	}
+	live2 := hasAuth && h.pairLive(u2, p2)
+	entitled := live2 || (hasAuth && h.withinWindow(u2, p2))
+	ambiguous := hasAuth && ok1 && u1+p1 == u2+p2 && u1 != u2
 	verifKnown("KF-C36-CACHEKEY", ambiguous)
-	verifAssert(err2 != nil || entitled, "admitted-only-with-issued-pair-live-or-within-window")
-	if err2 == nil {
+	verifAssert(!ok2 || entitled, "admitted-only-with-issued-pair-live-or-within-window")
+	if ok2 {
 		verifReach("VerifC36Token:final-admitted")
-		if !toks[0].live && u2 == toks[0].id && p2 == toks[0].secret {
+		if !live2 {
 			verifReach("VerifC36Token:admitted-from-cache-after-delete")
 		}
 	} else {
 		verifReach("VerifC36Token:final-refused")
-		if err1 == nil && u1 == u2 && p1 == p2 && hasAuth {
+		if ok1 && u1 == u2 && p1 == p2 && hasAuth {
 			verifReach("VerifC36Token:refused-after-expiry")
+			if okM && !liveM {
+				// used from the cache after deletion, then refused: the hit did not renew the entry
+				verifReach("VerifC36Token:refused-although-used-in-between")
+			}
 		}
 	}
 }
